@@ -26,6 +26,8 @@ type PropCfg struct {
 	Regex      []struct {
 		Name string `json:"name"` // package-relative variable, e.g. klog.timePattern ; or func key + "#" + ordinal for local patterns
 		Spec string `json:"spec"`
+		Anchored bool `json:"anchored,omitempty"`
+		Domain string `json:"domain,omitempty"`
 	} `json:"regex"`
 	Bounded     []string `json:"bounded"`     // names of bounded stand-ins (run by external commands)
 	Assumptions []string `json:"assumptions"` // extra assumption text for the evidence file
@@ -230,7 +232,7 @@ func runProperty(p *Program, id string, cfg *PropCfg, timeout int) *checkResult 
 	}
 	// regex obligations
 	for _, r := range cfg.Regex {
-		o := &RegexObl{Name: r.Name, Spec: r.Spec}
+		o := &RegexObl{Name: r.Name, Spec: r.Spec, Anchored: r.Anchored, Domain: r.Domain}
 		code, ok := p.findPattern(r.Name)
 		if !ok {
 			o.Status = "failed"
